@@ -85,27 +85,33 @@ class TablerowNode(Node):
         character_count += buffer.write('<tr class="row1">\n')
         _break = False
 
-        with context.extend(namespace):
-            for item in drop:
-                namespace[name] = item
-                character_count += buffer.write(f'<td class="col{drop.col}">')
+        # Loops inside the block count these iterations too.
+        carry = context.loop_iteration_carry
+        context.loop_iteration_carry = carry * max(length, 1)
+        try:
+            with context.extend(namespace):
+                for item in drop:
+                    namespace[name] = item
+                    character_count += buffer.write(f'<td class="col{drop.col}">')
 
-                try:
-                    character_count += self.block.render(context=context, buffer=buffer)
-                except BreakLoop:
-                    _break = True
-                except ContinueLoop:
-                    pass
+                    try:
+                        character_count += self.block.render(context=context, buffer=buffer)
+                    except BreakLoop:
+                        _break = True
+                    except ContinueLoop:
+                        pass
 
-                character_count += buffer.write("</td>")
+                    character_count += buffer.write("</td>")
 
-                if drop.col_last and not drop.last:
-                    character_count += buffer.write(
-                        f'</tr>\n<tr class="row{drop.row + 1}">'
-                    )
+                    if drop.col_last and not drop.last:
+                        character_count += buffer.write(
+                            f'</tr>\n<tr class="row{drop.row + 1}">'
+                        )
 
-                if _break:
-                    break
+                    if _break:
+                        break
+        finally:
+            context.loop_iteration_carry = carry
 
         character_count += buffer.write("</tr>\n")
         return character_count
@@ -142,29 +148,35 @@ class TablerowNode(Node):
         character_count += buffer.write('<tr class="row1">\n')
         _break = False
 
-        with context.extend(namespace):
-            for item in drop:
-                namespace[name] = item
-                character_count += buffer.write(f'<td class="col{drop.col}">')
+        # Loops inside the block count these iterations too.
+        carry = context.loop_iteration_carry
+        context.loop_iteration_carry = carry * max(length, 1)
+        try:
+            with context.extend(namespace):
+                for item in drop:
+                    namespace[name] = item
+                    character_count += buffer.write(f'<td class="col{drop.col}">')
 
-                try:
-                    character_count += await self.block.render_async(
-                        context=context, buffer=buffer
-                    )
-                except BreakLoop:
-                    _break = True
-                except ContinueLoop:
-                    pass
+                    try:
+                        character_count += await self.block.render_async(
+                            context=context, buffer=buffer
+                        )
+                    except BreakLoop:
+                        _break = True
+                    except ContinueLoop:
+                        pass
 
-                character_count += buffer.write("</td>")
+                    character_count += buffer.write("</td>")
 
-                if drop.col_last and not drop.last:
-                    character_count += buffer.write(
-                        f'</tr>\n<tr class="row{drop.row + 1}">'
-                    )
+                    if drop.col_last and not drop.last:
+                        character_count += buffer.write(
+                            f'</tr>\n<tr class="row{drop.row + 1}">'
+                        )
 
-                if _break:
-                    break
+                    if _break:
+                        break
+        finally:
+            context.loop_iteration_carry = carry
 
         character_count += buffer.write("</tr>\n")
         return character_count
